@@ -16,6 +16,7 @@ from sim import core, docs, gfx, seams
 from sim.core import Dev, Outcome
 from sim.gfx import Op
 from sim.oracle import where
+from sim.scratch import Scratch
 from sim.pdfwriter import Name, Ref, Ser, Str
 
 ID = "C11"
@@ -34,7 +35,7 @@ ASSUMPTIONS = [
     "XML well-formedness in the presence of control characters is required only with strip_control=True",
     "characters that XML 1.0 cannot represent at all (U+FFFE, U+FFFF, lone surrogates) are not generated",
 ]
-PROBES = ["sink:StringIO", "sink:TextIOWrapper", "sink:BytesIO", "sink:mode-w", "sink:mode-wb", "sink:duck", "codec:utf-16-le", "codec:utf-32-le", "codec:latin-1", "special char in text", "control char in text", "astral char in text", "special char in font name", "special char in figure name", "strip_control", "figure", "shape", "image", "boxes_flow None", "vertical text box"]
+PROBES = ["page selection: none", "page selection: first", "page selection: odd", "xml with exported images", "sink:StringIO", "sink:TextIOWrapper", "sink:BytesIO", "sink:mode-w", "sink:mode-wb", "sink:duck", "codec:utf-16-le", "codec:utf-32-le", "codec:latin-1", "special char in text", "control char in text", "astral char in text", "special char in font name", "special char in figure name", "strip_control", "figure", "shape", "image", "boxes_flow None", "vertical text box"]
 TIERS = {
     "quick": {"batches": 16, "runs": 350, "budget_s": 50},
     "thorough": {"batches": 128, "runs": 500, "budget_s": 1200},
@@ -353,8 +354,13 @@ def run(tape, ctx, item=None):
     if lakey == "noflow":
         ctx.probe("boxes_flow None")
     la = lambda: LAParams(**LA[lakey])  # noqa: E731
+    # page selection: all pages, a subset, or a selection that matches no page at all (output without any page)
+    selkind = t.pick(["all", "all", "all", "all", "none", "first", "odd"], "select")
+    sel = {"all": None, "none": {57}, "first": {0}, "odd": {1, 3}}[selkind]
+    if selkind != "all":
+        ctx.probe("page selection: " + selkind)
     try:
-        pages = list(HL.extract_pages(io.BytesIO(data), laparams=la()))
+        pages = list(HL.extract_pages(io.BytesIO(data), laparams=la(), page_numbers=sel))
     except Exception as e:
         raise core.HarnessError("generated document does not extract: %r" % (e,))
     if any(isinstance(x, L.LTTextBoxVertical) for p in pages for x in p):
@@ -364,9 +370,9 @@ def run(tape, ctx, item=None):
     # ---------------- text output
     for _ in range(t.rint(2, 3, "ntext")):
         kind, sink, codec, read = make_sink(t, ctx, want_text)
-        cfg = "output=text sink=%s codec=%s laparams=%s" % (kind, codec, lakey)
+        cfg = "output=text sink=%s codec=%s laparams=%s pages=%s" % (kind, codec, lakey, selkind)
         try:
-            HL.extract_text_to_fp(io.BytesIO(data), sink, output_type="text", codec=codec or "utf-8", laparams=la())
+            HL.extract_text_to_fp(io.BytesIO(data), sink, output_type="text", codec=codec or "utf-8", laparams=la(), page_numbers=sel)
             got = read()
         except Exception as e:
             devs.append(Dev("C11:text:raise:%s@%s" % (type(e).__name__, where(e)), "%r; %s" % (e, cfg)))
@@ -376,7 +382,7 @@ def run(tape, ctx, item=None):
             devs.append(Dev("C11:text:differs-from-tree" + (":binary-sink" if codec else ":text-sink"), "at char %d: output %r, tree gives %r; %s" % (n, got[max(0, n - 15) : n + 15], want_text[max(0, n - 15) : n + 15], cfg)))
         scen.append(cfg)
     try:
-        if HL.extract_text(io.BytesIO(data), laparams=la()) != want_text:
+        if HL.extract_text(io.BytesIO(data), laparams=la(), page_numbers=sel) != want_text:
             devs.append(Dev("C11:extract_text-differs-from-tree", "laparams=%s" % lakey))
     except Exception as e:
         devs.append(Dev("C11:extract_text:raise:%s" % type(e).__name__, repr(e)))
@@ -389,13 +395,21 @@ def run(tape, ctx, item=None):
         stripc = t.coin(60, 100, "strip") if has_control else t.coin(30, 100, "strip")
         if stripc:
             ctx.probe("strip_control")
-        cfg = "output=xml sink=%s codec=%s strip_control=%s laparams=%s" % (kind, codec, stripc, lakey)
+        export = t.coin(20, 100, "xml.export")
+        cfg = "output=xml sink=%s codec=%s strip_control=%s laparams=%s pages=%s images-exported=%s" % (kind, codec, stripc, lakey, selkind, export)
+        sc = Scratch("verif-c11-") if export else None
         try:
-            HL.extract_text_to_fp(io.BytesIO(data), sink, output_type="xml", codec=codec or "", laparams=la(), strip_control=stripc)
+            if export:
+                # images exported next to the XML: the file name (made from the document's image name) becomes an attribute
+                ctx.probe("xml with exported images")
+            HL.extract_text_to_fp(io.BytesIO(data), sink, output_type="xml", codec=codec or "", laparams=la(), strip_control=stripc, page_numbers=sel, output_dir=sc.makedirs("out") if export else None)
             got = read()
         except Exception as e:
             devs.append(Dev("C11:xml:raise:%s@%s" % (type(e).__name__, where(e)), "%r; %s" % (e, cfg)))
             continue
+        finally:
+            if sc is not None:
+                sc.cleanup()
         scen.append(cfg)
         if has_control and not stripc:
             continue  # well-formedness with control characters is what strip_control is for
@@ -410,7 +424,22 @@ def run(tape, ctx, item=None):
             devs.append(Dev("C11:xml:ill-formed", "%s in line %r; %s" % (e, line[:200], cfg)))
             continue
         want = ["#root", {}, [["pages", {}, [expected_xml_tree(p, stripc) for p in pages], ""]], ""]
-        d = diff_tree(want, norm_ws(parsed))
+        got_tree = norm_ws(parsed)
+        if export:
+            # <image src=...>: the exported file's name begins with the image's name (path separators replaced)
+            srcs = []
+
+            def take_src(node):
+                if node[0] == "image":
+                    srcs.append(node[1].pop("src", None))
+                for k in node[2]:
+                    take_src(k)
+
+            take_src(got_tree)
+            names = [im.name.replace("/", "_").replace("\\", "_").replace("\0", "_") for p in pages for im in walk(p) if isinstance(im, L.LTImage)]
+            if len(srcs) != len(names) or any(sv is None or not sv.startswith(nm) or not sv.endswith(".bmp") for sv, nm in zip(srcs, names)):
+                devs.append(Dev("C11:xml:image-src", "src attributes %r, image names %r; %s" % (srcs, names, cfg)))
+        d = diff_tree(want, got_tree)
         if d:
             devs.append(Dev("C11:xml:differs-from-tree", "%s; %s" % (d, cfg)))
     seen = {}
